@@ -1005,6 +1005,17 @@ func r03LineIntersectsExceptions(c *core.Ctx, li *core.Func) {
 				return fmt.Sprintf("line[%d]", k)
 			}
 		}
+		// a local given one point or the other depending on the path (`untouchable := crossing` / `= tip`)
+		if ph, isPhi := v.(*ssa.Phi); isPhi {
+			if sel, has := fr.phiSel[ph]; has && sel != v {
+				return roleOf(fr, sel)
+			}
+		}
+		if ld, isLd := v.(*ssa.UnOp); isLd && ld.Op == token.MUL {
+			if cv, has := fr.cells[ld.X]; has && cv != v {
+				return roleOf(fr, cv)
+			}
+		}
 		switch x := v.(type) {
 		case *ssa.Extract:
 			if call, ok := x.Tuple.(*ssa.Call); ok && core.StaticCalleeID(call) == core.ModPath+"/intgeom.SegmentIntersect" && x.Index == 0 {
@@ -1593,6 +1604,12 @@ func r04DecisionTable(c *core.Ctx) {
 			k = "2"
 		}
 		if k == "" {
+			// a named condition computed by a call (adjacent := quadrantsAreAdjacent(q1, q2))
+			if t := info.TypeOf(rhs); t != nil {
+				if bt, isB := t.Underlying().(*types.Basic); isB && bt.Info()&types.IsBoolean != 0 {
+					boolDefs[name] = rhs
+				}
+			}
 			return
 		}
 		switch {
@@ -1735,6 +1752,16 @@ func r04DecisionTable(c *core.Ctx) {
 			return true
 		}
 		l := list{facts: enclosingFacts(builder.Decl.Body, cl), pos: cl.Pos()}
+		// a path condition given a name first stands for its definition
+		for fi := range l.facts {
+			for k := 0; k < 3; k++ {
+				def, has := boolDefs[l.facts[fi].expr]
+				if !has {
+					break
+				}
+				l.facts[fi].expr = canon(def)
+			}
+		}
 		for _, el := range cl.Elts {
 			e, ok := el.(*ast.CompositeLit)
 			if !ok || len(e.Elts) != 3 {
